@@ -178,11 +178,31 @@ def io_reader_table(repo: Repo):
             continue
         rets = [n for n in ast.walk(fi.node) if isinstance(n, ast.Return) and n.value is not None]
         rec = {"fi": fi}
-        if len(rets) == 1 and isinstance(rets[0].value, ast.Call):
+        ret_expr = rets[0].value if len(rets) == 1 else None
+        if isinstance(ret_expr, ast.Name):
+            # x = <loader call>; ...statements that do not touch x...; return x
+            nm_ = ret_expr.id
+            defs_ = [n for n in ast.walk(fi.node) if isinstance(n, ast.Assign) and len(n.targets) == 1 and isinstance(n.targets[0], ast.Name) and
+                     n.targets[0].id == nm_]
+            touched_ = False
+            for n in ast.walk(fi.node):
+                tg = n.targets[0] if isinstance(n, ast.Assign) and len(n.targets) == 1 else (n.target if isinstance(n, ast.AugAssign) else None)
+                if tg is not None and not (isinstance(n, ast.Assign) and n in defs_):
+                    root = tg
+                    while isinstance(root, (ast.Subscript, ast.Attribute)):
+                        root = root.value
+                    if isinstance(root, ast.Name) and root.id == nm_:
+                        touched_ = True
+                if isinstance(n, ast.Call) and isinstance(n.func, ast.Attribute) and isinstance(n.func.value, ast.Name) and n.func.value.id == nm_ and \
+                        n.func.attr in ("sort", "resize", "fill", "setflags", "put", "itemset", "partition", "byteswap"):
+                    touched_ = True
+            if len(defs_) == 1 and isinstance(defs_[0].value, ast.Call) and not touched_:
+                ret_expr = defs_[0].value
+        if ret_expr is not None and isinstance(ret_expr, ast.Call):
             from .astutil import inline_self_methods
-            c = inline_self_methods(ci, rets[0].value)        # the loader call may sit in a small shared helper of the class
+            c = inline_self_methods(ci, ret_expr)        # the loader call may sit in a small shared helper of the class
             if not isinstance(c, ast.Call):
-                c = rets[0].value
+                c = ret_expr
             d = repo.dotted_of(fi.module, c.func) or ""
             rec["family"] = LOAD_FAMILY.get(d)
             rec["dotted"] = d
